@@ -64,6 +64,21 @@ fn c16_reencode_winansi() {
     std::mem::forget((s, back, s2));
 }
 
+/// No cell of any predefined table is a UTF-16 surrogate, so `String::from_utf16` on a decoded
+/// single byte cannot fail (bytes_to_string `expect`s it), for every table and every byte.
+#[kani::proof]
+#[kani::unwind(4)]
+fn c16_tables_no_surrogates() {
+    let b: u8 = kani::any();
+    let k: u8 = kani::any();
+    kani::assume(k <= 4);
+    match table(k)[b as usize] {
+        Some(u) => assert!(u < 0xD800 || u > 0xDFFF, "table cell is a lone surrogate: bytes_to_string would panic"),
+        None => {}
+    }
+    kani::cover!(k == 4 && b == 0xFF);
+}
+
 /// Agreement with the published code charts (ISO 32000-1 Annex D), expressed as rules:
 /// printable ASCII 0x20..=0x7E is identity in WinAnsi, MacRoman and PDFDoc (Standard differs only at
 /// 0x27 quoteright and 0x60 quoteleft); 0xA1..=0xFF except 0xAD equals Latin-1 in WinAnsi and PDFDoc.
@@ -110,4 +125,33 @@ fn c16_encode_utf16_be() {
     }
     kani::cover!(cp >= 0x10000);
     std::mem::forget(v);
+}
+
+/// string_to_bytes for every printable ASCII character in StandardEncoding and WinAnsiEncoding:
+/// the byte found is the table position of that character (Standard: apostrophe and grave accent
+/// live at 0xA9 / 0xC1 because 0x27 / 0x60 are the typographic quotes).
+fn s2b_harness(k: u8) {
+    let b: u8 = kani::any();
+    kani::assume(b >= 0x20 && b <= 0x7E);
+    let buf = [b];
+    let s = match std::str::from_utf8(&buf) {
+        Ok(s) => s,
+        Err(_) => unreachable!(),
+    };
+    let t = table(k);
+    let out = string_to_bytes(t, s);
+    assert!(out.len() == 1, "a character the table contains must encode to one byte");
+    assert!(t[out[0] as usize] == Some(b as u16), "string_to_bytes returned a byte that does not decode to the character");
+    kani::cover!(b == 0x27);
+    std::mem::forget(out);
+}
+#[kani::proof]
+#[kani::unwind(258)]
+fn c16_string_to_bytes_standard_ascii() {
+    s2b_harness(0);
+}
+#[kani::proof]
+#[kani::unwind(258)]
+fn c16_string_to_bytes_winansi_ascii() {
+    s2b_harness(3);
 }
